@@ -191,7 +191,9 @@ func runCell(r *fsRuntime, c *FSCase, st *Stats) (v *Violation, reuse bool) {
 	}
 	val, err, panicked, pv := protectedRun(vm, src)
 	vm.SetStackDepthLimit(0)
-	_ = val
+	if eventLogOn {
+		ev("cell", cellKey(c), c.Fault, c.K, panicked, fmt.Sprint(err), valStr(val))
+	}
 	fail := func(class, f string, a ...interface{}) *Violation {
 		x := viol("C02", class, "%s fault=%s@%d: "+f, append([]interface{}{cellKey(c), c.Fault, c.K}, a...)...)
 		x.Key = cellKey(c)
